@@ -20,6 +20,9 @@ func init() {
 const tSnapElem = "leveldb.snapshotElement"
 
 func runC03(p *Prog, r *Report) {
+	if want("C03.18") {
+		ruleTrBufferResetSoleHolder(p, r, "C03.18")
+	}
 	if want("C03.17") {
 		ruleSnapshotReadsFrozenSeq(p, r, "C03.17")
 	}
